@@ -274,7 +274,7 @@ pub fn run(tier: Tier) -> Report {
         .flat_map_iter(|(i, it)| {
             let pr = print_program(&it.program);
             let vars = doc_variants(&pr, 6);
-            let nvar = if it.family == "declaration-faults" || it.family == "scenario-permutations" { 6 } else { 2 };
+            let nvar = if it.family == "declaration-faults" || it.family == "scenario-permutations" { 7 } else { 2 };
             let mut out = vec![];
             for k in 0..nvar {
                 let (layout, gaps) = vars[(i + k) % vars.len()].clone();
@@ -314,7 +314,10 @@ pub fn run(tier: Tier) -> Report {
                     "=" => k >= 2 && words[k - 2] == "type",
                     // (a following `;` would take over the role of the deleted one)
                     ";" if words.get(k + 1).map(|n| n == ";").unwrap_or(false) => false,
-                    ";" => k >= 1 && !matches!(words[k - 1].as_str(), "{" | "}" | ";" | ")") || (k >= 1 && words[k - 1] == ")" && {
+                    // a `;` that terminates an assignment, call or declaration follows an
+                    // identifier, a literal, `]` or the `)` of a call; anywhere else it is an
+                    // empty statement whose removal can leave a valid program
+                    ";" => k >= 1 && (matches!(pr.toks[k - 1].class, TokClass::Ident(_) | TokClass::Number) || words[k - 1] == "]") || (k >= 1 && words[k - 1] == ")" && {
                         // `)` `;` ends a call statement (not an if/while header)
                         let mut depth = 0i32;
                         let mut j = k - 1;
